@@ -51,8 +51,8 @@ def reference(rel, qualname):
 def _raise_sig(sig):
     conds, out, eff = sig
     if out[0] == 'raise':
-        return (conds, ('raise', out[1]))
-    return (conds, (out[0],))
+        return (conds, ('raise', out[1]), ())
+    return (conds, ('no-raise',), ())
 
 
 def compare(func, rel, qualname, mode='full', **kw):
@@ -75,13 +75,17 @@ def compare(func, rel, qualname, mode='full', **kw):
         # only: under which conditions does the function raise what
         a2 = set(_raise_sig(x) for x in a)
         b2 = set(_raise_sig(x) for x in b)
-        if a2 == b2:
+        if refcmp.equivalent(a2, b2):
             return (not extra), extra, []
-    oa = sorted(refcmp.show_sig(s) for s in a - b)
-    ob = sorted(refcmp.show_sig(s) for s in b - a)
-    if a != b and not oa and not ob:
+        a, b = a2, b2
+    elif refcmp.equivalent(a, b):
+        return (not extra), extra, []
+    shw = refcmp.show_sig
+    oa = sorted(shw(s) for s in a - b)
+    ob = sorted(shw(s) for s in b - a)
+    if not oa and not ob:
         oa = ['(differs inside a loop body or an effect call)']
-    return (a == b and not extra), extra + oa, ob
+    return False, extra + oa, ob
 
 
 def check(chk, rule, repo, rel, qualname, what, **kw):
